@@ -1,0 +1,158 @@
+//go:build verif
+
+// Contracts for the remaining functions of nsqlookupd (round 5, area G; C14, C15), checked by /verif/cmd/nsqvc. Comment-only file.
+// Ghost records of library calls (net.Listen, Listener.Close, WaitGroup.Wait, sync.Map.Range): .trusted/r5G.spec.
+
+package nsqlookupd
+
+// ---- clients -------------------------------------------------------------------------------------------------------
+// A new connection is wrapped in a fresh client that is NOT identified yet (peerInfo nil: REGISTER / UNREGISTER are refused until
+// IDENTIFY, IOLoop's precondition [fresh-client]).
+//@ func NewClientV1(conn net.Conn) *ClientV1
+//@   props C15 C14
+//@   ensures[new-unidentified-client] result != nil && fresh(result) && result.Conn == conn && result.peerInfo == nil
+//@   modifies
+//@   nochan
+//@ func (p *LookupProtocolV1) NewClient(conn net.Conn) protocol.Client
+//@   props C15 C14
+//@   ensures[a-new-clientV1] dyntype(result) == typetag("*ClientV1") && unbox(result, "*ClientV1") != nil && fresh(unbox(result, "*ClientV1"))
+//@   ensures[for-this-connection-unidentified] unbox(result, "*ClientV1").Conn == conn && unbox(result, "*ClientV1").peerInfo == nil
+//@   modifies
+//@   nochan
+// The printed form of a client is the remote address of its connection (the peer id IDENTIFY files it under).
+//@ func (c *ClientV1) String() string
+//@   props C15
+//@   requires validC(c)
+//@   ensures[remote-address] result == addrString(remoteOf(c.Conn))
+//@   modifies
+//@   nochan
+
+// ---- registry constructor ------------------------------------------------------------------------------------------
+// A new registry is empty and satisfies the lock invariant of RegistrationDB.RWMutex.
+//@ func NewRegistrationDB() *RegistrationDB
+//@   props C14 C15
+//@   ensures[new-empty-registry] result != nil && fresh(result) && result.registrationMap != nil && fresh(result.registrationMap) && len(result.registrationMap) == 0
+//@   ensures[no-registration] forall k Registration :: {result.registrationMap[k]} !has(result.registrationMap, k)
+//@   modifies
+//@   nochan
+//@ func (p *Producer) String() string
+//@   props C15
+//@   requires p != nil && p.peerInfo != nil
+//@   modifies
+//@   nochan
+
+// ---- shut-down -----------------------------------------------------------------------------------------------------
+// tcpServer.Close walks the connection table once; the closure closes the client it is given and never stops the walk early.
+// The table only ever holds what Handle stored: the *ClientV1 made by NewClient (call protocol of the table, stated as the closure's
+// precondition; sync.Map contents are not modelled).
+//@ func (p *tcpServer) Close()
+//@   props C15 C14
+//@   requires p != nil
+//@   ensures[whole-table-walked-once] r5GRanges == old(r5GRanges) + 1 && r5GRangeOn == &p.conns
+//@   onreturn r5GTcpCloses := r5GTcpCloses + 1
+//@   modifies closedConn, r5GRanges
+//@ func (p *tcpServer) Close$1(k interface{}, v interface{}) bool
+//@   props C15 C14
+//@   requires[table-holds-clients] dyntype(v) == typetag("*ClientV1") && unbox(v, "*ClientV1") != nil
+//@   ensures[closes-this-client] closedConn == unbox(v, "*ClientV1").Conn
+//@   ensures[walk-continues] result
+//@   modifies closedConn
+
+// Exit: both listeners are closed (no new connection, no new request), every open connection is closed, and only then the
+// goroutines are waited for.
+//@ func (l *NSQLookupd) Exit()
+//@   props C15 C14
+//@   requires l != nil
+//@   ensures[tcp-listener-closed] l.tcpListener != nil ==> setin(r5GLsnClosedSet, l.tcpListener)
+//@   ensures[http-listener-closed] l.httpListener != nil ==> setin(r5GLsnClosedSet, l.httpListener)
+//@   ensures[only-own-listeners-closed] r5GLsnCloses == old(r5GLsnCloses) + (l.tcpListener != nil ? 1 : 0) + (l.httpListener != nil ? 1 : 0)
+//@   ensures[connections-closed] l.tcpServer != nil ==> r5GTcpCloses == old(r5GTcpCloses) + 1 && r5GRangeOn == &l.tcpServer.conns
+//@   ensures[waits-last] r5GLWaits == old(r5GLWaits) + 1 && r5GLWaited == &(&l.waitGroup).WaitGroup && r5GLWaitSawLsnCloses == r5GLsnCloses && r5GLWaitSawTcpCloses == r5GTcpCloses
+//@   ensures[registry-untouched] mAddCalls == old(mAddCalls) && mRemCalls == old(mRemCalls) && mTombCalls == old(mTombCalls)
+//@   modifies closedConn, r5GRanges, r5GTcpCloses, r5GLsnCloses, r5GLWaits
+
+// ---- start-up ------------------------------------------------------------------------------------------------------
+// New: a daemon is returned only with BOTH listeners open, wired up as every handler contract assumes (validP / mValidS: registry,
+// options, tcpServer back pointer) and with an empty registry; a failed listen is returned as an error and no daemon is returned.
+//@ func New(opts *Options) (*NSQLookupd, error)
+//@   props C15 C14
+//@   requires opts != nil
+//@   ensures[error-means-no-daemon] result1 != nil ==> result0 == nil
+//@   ensures[daemon-is-wired] result1 == nil ==> result0 != nil && fresh(result0) && result0.opts == opts && result0.DB != nil && fresh(result0.DB) &&
+//@        result0.tcpServer != nil && fresh(result0.tcpServer) && result0.tcpServer.nsqlookupd == result0
+//@   ensures[empty-registry] result1 == nil ==> result0.DB.registrationMap != nil && len(result0.DB.registrationMap) == 0
+//@   ensures[both-listeners-open] result1 == nil ==> r5GListens == old(r5GListens) + 2 && r5GListenOK == old(r5GListenOK) + 2 &&
+//@        result0.tcpListener != nil && result0.tcpListener == r5GPrevListener && r5GPrevListenAddr == opts.TCPAddress &&
+//@        result0.httpListener != nil && result0.httpListener == r5GLastListener && r5GLastListenAddr == opts.HTTPAddress
+//@   ensures[listen-error-returned] r5GListens > old(r5GListens) && r5GLastListenErr != nil ==> result1 != nil
+//@   ensures[at-most-two-listens] r5GListens >= old(r5GListens) + 1 && r5GListens <= old(r5GListens) + 2
+//@   ensures[daemon-keeps-both-listeners-open] result1 == nil ==> r5GLsnCloses == old(r5GLsnCloses)
+//@   modifies opts.Logger, r5GListens
+
+// ---- GET /debug ----------------------------------------------------------------------------------------------------
+// The dump is taken under the registry's read lock and lists EVERY registration that holds a producer with EVERY producer filed under it:
+// for each (registration k, peer id) of the registry there is an entry under the key "category:key:subkey" of k that carries that peer's id
+// and the producer's current tombstone flag (nested map ranges: visited(k, 0) for the outer range inside the inner one).
+//@ fn r5GDbgKey(k Registration) string := k.Category + ":" + k.Key + ":" + k.SubKey
+//@ pred r5GDbgEntryOf(m map[string]interface{}, p *Producer) := m != nil && allocated(m) && has(m, "id") && dyntype(m["id"]) == typetag("string") && unbox(m["id"], "string") == p.peerInfo.id &&
+//@      has(m, "tombstoned") && dyntype(m["tombstoned"]) == typetag("bool") && unbox(m["tombstoned"], "bool") == p.tombstoned
+//@ pred r5GDbgListed(d map[string][]map[string]interface{}, k Registration, p *Producer) := has(d, r5GDbgKey(k)) &&
+//@      (exists i int :: {d[r5GDbgKey(k)][i]} 0 <= i && i < len(d[r5GDbgKey(k)]) && r5GDbgEntryOf(d[r5GDbgKey(k)][i], p))
+//@ func (s *httpServer) doDebug(w http.ResponseWriter, req *http.Request, ps httprouter.Params) (interface{}, error)
+//@   props C14 C15
+//@   requires[server] mValidS(s)
+//@   ensures[ok] result1 == nil && dyntype(result0) == typetag("map[string][]map[string]interface{}") && unbox(result0, "map[string][]map[string]interface{}") != nil
+//@   ensures[every-registration-with-every-producer] forall k Registration, id string :: {atunlock(s.nsqlookupd.DB.registrationMap[k][id])} atunlock(hasProd(s.nsqlookupd.DB, k, id)) ==>
+//@        r5GDbgListed(unbox(result0, "map[string][]map[string]interface{}"), k, atunlock(s.nsqlookupd.DB.registrationMap[k][id]))
+//@   ensures[registry-untouched] mAddCalls == old(mAddCalls) && mRemCalls == old(mRemCalls) && mTombCalls == old(mTombCalls)
+//@   modifies RegistrationDB.registrationMap, mapstore(map[Registration]ProducerMap), mapstore(ProducerMap)
+//@   loop 0
+//@     invariant[dump] data != nil && fresh(data)
+//@     invariant[own-lists] forall dk string :: {data[dk]} has(data, dk) ==> fresh(data[dk]) && allocated(base(data[dk])) && off(data[dk]) == 0
+//@     invariant[lists-disjoint] forall dk1 string, dk2 string :: {data[dk1], data[dk2]} has(data, dk1) && has(data, dk2) && base(data[dk1]) == base(data[dk2]) ==> dk1 == dk2
+//@     invariant[listed-so-far] forall k2 Registration, id string :: {s.nsqlookupd.DB.registrationMap[k2][id]} visited(k2) && has(s.nsqlookupd.DB.registrationMap[k2], id) ==>
+//@        r5GDbgListed(data, k2, s.nsqlookupd.DB.registrationMap[k2][id])
+//@   loop 1
+//@     invariant[dump] data != nil && fresh(data)
+//@     invariant[own-lists] forall dk string :: {data[dk]} has(data, dk) ==> fresh(data[dk]) && allocated(base(data[dk])) && off(data[dk]) == 0
+//@     invariant[lists-disjoint] forall dk1 string, dk2 string :: {data[dk1], data[dk2]} has(data, dk1) && has(data, dk2) && base(data[dk1]) == base(data[dk2]) ==> dk1 == dk2
+//@     invariant[cur] has(s.nsqlookupd.DB.registrationMap, r) && producers == s.nsqlookupd.DB.registrationMap[r] && key == r5GDbgKey(r)
+//@     invariant[listed-earlier] forall k2 Registration, id string :: {s.nsqlookupd.DB.registrationMap[k2][id]} visited(k2, 0) && k2 != r && has(s.nsqlookupd.DB.registrationMap[k2], id) ==>
+//@        r5GDbgListed(data, k2, s.nsqlookupd.DB.registrationMap[k2][id])
+//     (helper: the entry appended last describes the producer handled last - gives the witness of [listed-current] for the newest id without a search)
+//@     invariant[last-appended] (exists id0 string :: {producers[id0]} visited(id0)) ==> has(data, key) && len(data[key]) > 0 && r5GDbgEntryOf(data[key][len(data[key]) - 1], p)
+//@     invariant[listed-current] forall id string :: {producers[id]} visited(id) ==> r5GDbgListed(data, r, producers[id])
+
+// ---- HTTP front door -----------------------------------------------------------------------------------------------
+// newHTTPServer: the server object the handler contracts assume (mValidS: back pointer to the daemon) with a fresh router on which every API
+// route is registered under its method: the read-only views under GET, every state-changing call under POST only ("METHOD path" strings recorded
+// by the assumed contracts of Router.Handle / HandlerFunc / Handler); 21 routes in all (12 API, 9 pprof).
+//@ pred r5GRoute(m string, p string) := setin(r5GRoutes, m + " " + p)
+//@ func newHTTPServer(l *NSQLookupd) *httpServer
+//@   props C15 C14
+//@   requires l != nil
+//@   ensures[server-for-this-daemon] result != nil && fresh(result) && result.nsqlookupd == l && result.router != nil
+//@   ensures[read-only-views-under-get] r5GRoute("GET", "/ping") && r5GRoute("GET", "/info") && r5GRoute("GET", "/debug") && r5GRoute("GET", "/lookup") &&
+//@        r5GRoute("GET", "/topics") && r5GRoute("GET", "/channels") && r5GRoute("GET", "/nodes")
+//@   ensures[state-changing-calls-under-post] r5GRoute("POST", "/topic/create") && r5GRoute("POST", "/topic/delete") && r5GRoute("POST", "/channel/create") &&
+//@        r5GRoute("POST", "/channel/delete") && r5GRoute("POST", "/topic/tombstone")
+//@   ensures[route-count] r5GRouteCalls == old(r5GRouteCalls) + 21
+//@   ensures[registry-untouched] mAddCalls == old(mAddCalls) && mRemCalls == old(mRemCalls) && mTombCalls == old(mTombCalls)
+//@   modifies r5GRoutes
+
+// ServeHTTP: every request is handed to the router exactly once, with the writer and the request it came with.
+//@ func (s *httpServer) ServeHTTP(w http.ResponseWriter, req *http.Request)
+//@   props C15 C14
+//@   requires s != nil && s.router != nil
+//@   ensures[dispatched-once] r5GServeCalls == old(r5GServeCalls) + 1 && r5GServeReq == req && r5GServeW == w
+
+// Main: both servers are started as goroutines of the daemon's wait group (the one Exit waits for), the HTTP server object is built for THIS
+// daemon with the full route table, and Main returns only after one of the two servers reported its exit (one receive on the exit channel;
+// the goroutine bodies - protocol.TCPServer, http_api.Serve, the once-only exit function - are separate functions, not followed from here).
+//@ func (l *NSQLookupd) Main() error
+//@   props C15 C14
+//@   requires l != nil
+//@   ensures[both-servers-started] r5GWraps == old(r5GWraps) + 2 && r5GWrapOn == &l.waitGroup && r5GPrevWrapOn == &l.waitGroup
+//@   ensures[http-routes-registered] r5GRouteCalls == old(r5GRouteCalls) + 21 && r5GRoute("GET", "/lookup") && r5GRoute("GET", "/nodes") && r5GRoute("POST", "/topic/tombstone")
+//@   ensures[registry-untouched] mAddCalls == old(mAddCalls) && mRemCalls == old(mRemCalls) && mTombCalls == old(mTombCalls)
+//@   modifies r5GRoutes, r5GWraps
